@@ -2775,10 +2775,12 @@ class Env(cabc.MutableMapping):
         """
         if key in local:
             return local[key]
-        try:
-            return self[key]
-        except KeyError:
-            return NotImplemented
+        if key in self._d:
+            return self._d[key]
+        # Not explicitly set: a registered default or a value provided by an
+        # enclosing overlay must not be captured, otherwise leaving the scope
+        # would turn it into an explicit thread-local setting.
+        return NotImplemented
 
     @contextlib.contextmanager
     def swap(self, other=None, overlay=None, **kwargs):
